@@ -291,7 +291,7 @@ fn count_exprs_stmt(s: &Stmt) -> usize {
         Stmt::FuncDef(f) => count_exprs_block(&f.body),
         Stmt::Return(e) => e.as_ref().map_or(0, count_exprs),
         Stmt::Expr(e) => count_exprs(e),
-        Stmt::Break | Stmt::Continue => 0,
+        Stmt::Break | Stmt::Continue | Stmt::Raw(_) => 0,
     }
 }
 
